@@ -38,12 +38,14 @@ NUMERIC = (f"""(define (domain n1)
   :precondition (and (>= (g ?x) 1))
   :effect (and (decrease (g ?x) 1) (increase (h ?x ?y) 1) (assign (f) (* (g ?y) -1))))
 (:action tick :parameters () :precondition (and) :effect (and (increase (f) 0.00001)))
+(:action mix :parameters (?x - t1)
+  :precondition (and (on ?x)) :effect (and (increase (f) (g ?x)) (decrease (g ?x) (f))))
 (:action swap :parameters (?x - t1 ?y - t1)
   :precondition (and (not (= ?x ?y)))
   :effect (and (assign (g ?x) (g ?y)) (when (on ?x) (assign (g ?y) (g ?x))))))
 """, """(define (problem n1p) (:domain n1)
 (:objects a b - t1)
-(:init (= (f) -2) (= (g a) 0) (= (g b) 1.5) (= (h a a) 0) (= (h a b) 0) (= (h b a) 0.25) (= (h b b) 0))
+(:init (= (f) -2) (= (g a) 0) (= (g b) 1.5) (= (h a a) 0) (= (h a b) 0.00002) (= (h b a) 0.25) (= (h b b) 0))
 (:goal (and (> (g a) 1))))
 """)
 
@@ -62,7 +64,10 @@ COND = (f"""(define (domain c1)
   :precondition (and (not (= ?x ?y)) (or (p ?x) (r)))
   :effect (and (q ?x ?y) (when (not (r)) (m ?y))))
 (:action mark :parameters (?o - object) :precondition (and (not (m ?o))) :effect (and (m ?o) (p k)))
-(:action bump :parameters () :precondition (and) :effect (and (increase (aux) (+ (cnt) 1)))))
+(:action bump :parameters () :precondition (and) :effect (and (increase (aux) (+ (cnt) 1))))
+(:action gate :parameters ()
+  :precondition (and (or (forall (?z - t3) (and (m ?z))) (r)))
+  :effect (and (p k))))
 """, """(define (problem c1p) (:domain c1)
 (:objects a - t1 b b2 - t2 w - t3)
 (:init (p a) (q a b) (q a b2) (= (cnt) 0))
